@@ -26,6 +26,7 @@ type c14MainInterp struct {
 	exps    []c14.Expect
 	known   map[uint64]string
 	caseOps []string
+	flag    bool
 }
 
 func (in *c14MainInterp) txmeta(dataID, metaID int) string {
@@ -80,6 +81,16 @@ func (in *c14MainInterp) exec(line string) string {
 		in.w = c14.NewWorld()
 		in.exps = nil
 		in.known = map[uint64]string{}
+		in.flag = false
+		ipldbindcode.DisableHashVerification = false
+		return "ok"
+	case "flag":
+		// the process-wide switch `index gsfa` sets (default flags: true) and never resets
+		if len(w) != 3 || w[1] != "disableHashVerification" {
+			return "bad-op"
+		}
+		in.flag = w[2] == "true"
+		ipldbindcode.DisableHashVerification = in.flag
 		return "ok"
 	case "frame":
 		f, err := c14.ParseSpec(w)
@@ -123,7 +134,12 @@ func (in *c14MainInterp) judge(ans string) {
 	}
 	report := func(e c14.Expect, a string) {
 		if v := e.Judge(a); v != "" {
-			in.s.Violation("getTransactionAndMetaFromNode: "+v, "C14:main:"+e.Mode+":"+e.Fault, in.s.Replay(in.caseOps))
+			key := "C14:main:" + e.Mode + ":" + e.Fault
+			if in.flag {
+				key = c14.FlagKey
+				v = "with ipldbindcode.DisableHashVerification set (the state `index gsfa` leaves behind): " + v
+			}
+			in.s.Violation("getTransactionAndMetaFromNode: "+v, key, in.s.Replay(in.caseOps))
 		}
 	}
 	switch {
@@ -146,9 +162,13 @@ func c14MainGenerate(g *c14.Gen, s *zz.Session, thorough bool) {
 	hashKinds := []string{"crc", "fnv", "none"}
 	orders := []string{"asc", "desc", "shuffle"}
 	caseNo, seq := 0, 0
+	flagPhase := false
 	one := func(dataSize, metaContent, kd, km, Fd, Fm int, hk string, tot bool, lim int) {
 		caseNo++
-		g.Emit("case run=main #%d data=%d metaContent=%d kd=%d km=%d Fd=%d Fm=%d hash=%s total=%v", caseNo, dataSize, metaContent, kd, km, Fd, Fm, hk, tot)
+		g.Emit("case run=main #%d data=%d metaContent=%d kd=%d km=%d Fd=%d Fm=%d hash=%s total=%v flag-phase=%v", caseNo, dataSize, metaContent, kd, km, Fd, Fm, hk, tot, flagPhase)
+		if flagPhase {
+			g.Emit("flag disableHashVerification true")
+		}
 		var z []byte
 		if metaContent < 0 {
 			z = []byte{}
@@ -190,13 +210,21 @@ func c14MainGenerate(g *c14.Gen, s *zz.Session, thorough bool) {
 			if side == 1 && pm.K == pd.K {
 				q = pd
 			}
-			for _, sc := range g.Faults(p, q, lim) {
+			scs := g.Faults(p, q, lim)
+			if flagPhase {
+				scs = g.ContentFaults(p, q)
+			}
+			for _, sc := range scs {
 				if sc.ND || (side == 1 && sc.Mode == "none") {
 					// without a recorded checksum altered bytes reach zstd, whose answer the model cannot
 					// predict; the tooling run compares these faults without zstd in the way
 					continue
 				}
-				s.Count("fault:" + sc.Name)
+				if flagPhase {
+					s.Count("flag-phase:fault:" + sc.Name)
+				} else {
+					s.Count("fault:" + sc.Name)
+				}
 				for _, l := range sc.Setup {
 					g.Emit("%s", l)
 				}
@@ -239,12 +267,27 @@ func c14MainGenerate(g *c14.Gen, s *zz.Session, thorough bool) {
 		}
 		one(g.R.Intn(4000), mc, 1+g.R.Intn(60), 1+g.R.Intn(60), 1+g.R.Intn(10), 1+g.R.Intn(10), hashKinds[g.R.Intn(3)], g.R.Intn(4) != 0, 6)
 	}
+	// configuration phase: ipldbindcode.DisableHashVerification set, as after `index gsfa` with default flags
+	flagPhase = true
+	for fi, k := range []int{1, 2, 5, 10, 60} {
+		for _, hk := range []string{"crc", "fnv"} {
+			one(30*k+fi, 40*k, k, k, 1+(fi*3)%10, 1+(fi*7)%10, hk, true, -1)
+		}
+	}
+	if thorough {
+		for r := 0; r < 100; r++ {
+			one(1+g.R.Intn(4000), g.R.Intn(6000), 1+g.R.Intn(60), 1+g.R.Intn(60), 1+g.R.Intn(10), 1+g.R.Intn(10), hashKinds[g.R.Intn(2)], true, -1)
+		}
+	}
+	flagPhase = false
 }
 
 func TestVerifC14Main(t *testing.T) {
 	s := zz.NewSession()
 	defer s.Close()
 	in := &c14MainInterp{s: s, w: c14.NewWorld(), known: map[uint64]string{}}
+	savedFlag := ipldbindcode.DisableHashVerification
+	defer func() { ipldbindcode.DisableHashVerification = savedFlag }()
 	var ops []string
 	if rp := zz.ReplayFile(); rp != "" {
 		data, err := os.ReadFile(rp)
